@@ -58,6 +58,29 @@ example : inNetwork (IP4.ofInt 0xc0a80a5a false) (IP4.ofInt 0xc0a80a00 false) 24
 example : inNetwork (IP4.ofInt 0xc0a80a5a false) (IP4.ofInt 0xc0a80a5a false) 24 = .ok false := by decide
 example : inNetwork (IP4.ofInt 0 false) (IP4.ofInt 0 false) 33 = .error .value := by decide
 
+/-- `parse_cidr` on text, for every address, prefix length and flag value: `"a.b.c.d/len"` gives the address and `len`
+when the host bits are zero or `allow_host` is set, RuntimeError when they are not, AssertionError for `len > 32`; and
+`"a.b.c.d/m.m.m.m"` with the netmask of `len` gives the same answer as `"a.b.c.d/len"`.  (The class-inference branch for
+texts without a slash is covered by the correspondence run only.) -/
+theorem cidr_text (b0 b1 b2 b3 : UInt8) (len : Nat) (infer allowHost : Bool) :
+    (parseCidr (dotted [b0, b1, b2, b3] ++ '/' :: fmtNat 10 len) infer allowHost =
+      if len > 32 then .error .assertion
+      else if !allowHost && decide (beDec [b0, b1, b2, b3] % 2 ^ (32 - len) ≠ 0) then .error .runtime
+      else .ok (ip4OfBytes b0 b1 b2 b3, len)) ∧
+    (∀ m0 m1 m2 m3 : UInt8, len ≤ 32 → beDec [m0, m1, m2, m3] = 2 ^ 32 - 2 ^ (32 - len) →
+      parseCidr (dotted [b0, b1, b2, b3] ++ '/' :: dotted [m0, m1, m2, m3]) infer allowHost =
+        if !allowHost && decide (beDec [b0, b1, b2, b3] % 2 ^ (32 - len) ≠ 0) then .error .runtime
+        else .ok (ip4OfBytes b0 b1 b2 b3, len)) ∧
+    (ip4OfBytes b0 b1 b2 b3).raw = [b0, b1, b2, b3] :=
+  ⟨parseCidr_prefix b0 b1 b2 b3 len infer allowHost,
+   fun m0 m1 m2 m3 hl hm => parseCidr_netmask b0 b1 b2 b3 m0 m1 m2 m3 len hl hm infer allowHost,
+   by unfold ip4OfBytes IP4.raw; rw [u32_sign32 _ (leDec32_lt b0 b1 b2 b3), leEnc32_leDec32]⟩
+
+example : parseCidr "10.1.0.0/16".toList true false = .ok (ip4OfBytes 10 1 0 0, 16) ∧
+    parseCidr "10.1.0.0/255.255.0.0".toList true false = .ok (ip4OfBytes 10 1 0 0, 16) ∧
+    parseCidr "10.1.0.1/16".toList true false = .error .runtime ∧ parseCidr "10.1.0.1/16".toList true true = .ok (ip4OfBytes 10 1 0 1, 16) ∧
+    parseCidr "10.1.0.0/33".toList true false = .error .assertion := by decide +kernel
+
 /-! ## datapath ids -/
 
 /-- `str_to_dpid(dpid_to_str(d, alwaysLong)) == d` for every 64-bit `d` (both short and long text forms). -/
@@ -260,5 +283,18 @@ example : ethOfText "1:2:3:4:5:6".toList = .ok [1, 2, 3, 4, 5, 6] := by decide +
 theorem eth_loose12_rejected : ethOfText "1:2:3:4:5:67".toList = .error .value := by decide +kernel
 /-- also found: a group above `ff` in the loose form is silently mis-parsed (`100:0:0:0:0:0` ↦ `10:00:00:00:00:00`) -/
 theorem eth_long_group_defect : ethOfText "100:0:0:0:0:0".toList = .ok [0x10, 0, 0, 0, 0, 0] := by decide +kernel
+
+/-- the `int(x, 16)` leniency reaches EthAddr too: prefixes, signs and blanks inside an address text are accepted -/
+theorem eth_int_leniency_defect :
+    ethOfText "0x1:2:3:4:5:6".toList = .ok [1, 2, 3, 4, 5, 6] ∧ ethOfText "+1+2+3+4+5+6".toList = .ok [1, 2, 3, 4, 5, 6] ∧
+    ethOfText " 1:02:03:04:05:06".toList = .ok [1, 2, 3, 4, 5, 6] := by decide +kernel
+
+/-- `parse_cidr` ignores everything after a second slash and takes the prefix length with `int()`'s leniency -/
+theorem cidr_leniency_defect :
+    parseCidr "10.0.0.0/8/9".toList true false = .ok (ip4OfBytes 10 0 0 0, 8) ∧
+    parseCidr "10.0.0.0/ 8".toList true false = .ok (ip4OfBytes 10 0 0 0, 8) ∧
+    parseCidr "10.0.0.0/+0_8".toList true false = .ok (ip4OfBytes 10 0 0 0, 8) ∧
+    (parseCidr6 "fe80::/10/1".toList false).toOption.map (·.2) = some 10 ∧
+    (parseCidr6 "fe80::/ 10".toList false).toOption.map (·.2) = some 10 := by decide +kernel
 
 end Pox.C16
